@@ -209,7 +209,10 @@ func (o *c21Oracle) step(now time.Duration, peer int, peerHex string, allowliste
 	case sawErr && !sawYes:
 		return "", "reject:check-failed"
 	case sawErr && sawYes:
-		return "", "reject:check-failed" // order of evaluation is the implementation's choice
+		// the order of evaluation is the implementation's choice, but once the policy has
+		// obtained a yes in this validation the peer is recognized by an application:
+		// a check that fails afterwards cannot take that back
+		return "peer rejected although an application answered yes in this very validation (another application's check failed besides)", ""
 	case allNo:
 		return "", "reject:unrecognized-now"
 	case reuseNeg:
